@@ -19,6 +19,7 @@ type Payload struct {
 	FeeRecipient  common.Eth1Address
 	StateRoot     common.Root
 	ReceiptsRoot  common.Root
+	LogsBloom     common.LogsBloom
 	PrevRandao    common.Root
 	BlockNumber   uint64
 	GasLimit      uint64
@@ -143,20 +144,29 @@ func (s *StateCtx) BuildPayload(p PayloadPlan) (out *Payload, err error) {
 	if m := int(s.Spec.MAX_TRANSACTIONS_PER_PAYLOAD); ntx > m {
 		ntx = m
 	}
+	// Every field that process_execution_payload copies into latest_execution_payload_header gets a distinct,
+	// non-zero value that varies from slot to slot (so a header built from the wrong field, or a stale one, shows).
+	sl := uint64(slot)
 	out = &Payload{
 		ParentHash:    parentHash,
-		FeeRecipient:  common.Eth1Address{0xfe, 0xe0},
-		StateRoot:     UnknownRoot("exec-state", uint64(slot)),
-		ReceiptsRoot:  UnknownRoot("exec-receipts", uint64(slot)),
+		FeeRecipient:  common.Eth1Address{0xfe, 0xe0, byte(sl), byte(sl >> 8), 19: byte(0x10 + sl%7)},
+		StateRoot:     UnknownRoot("exec-state", sl),
+		ReceiptsRoot:  UnknownRoot("exec-receipts", sl),
 		PrevRandao:    s.RandaoMix(s.Epoch()),
 		BlockNumber:   parentNumber + 1,
-		GasLimit:      30000,
-		GasUsed:       uint64(21 * ntx),
+		GasLimit:      30000 + sl%11,
+		GasUsed:       uint64(21*ntx) + sl%5,
 		Timestamp:     s.ExpectedTimestamp(),
-		ExtraData:     []byte("verif"),
-		BaseFeePerGas: 7,
+		ExtraData:     []byte{'v', 'e', 'r', 'i', 'f', byte('a' + sl%26)},
+		BaseFeePerGas: 7 + sl%13,
 		Withdrawals:   s.ExpectedWithdrawals(),
+		// deneb only (dropped by ToBellatrix / ToCapella): never equal to each other
+		BlobGasUsed:   1000 + 3*sl,
+		ExcessBlobGas: 500 + 5*sl + 1,
 	}
+	bloom := UnknownRoot("exec-bloom", sl)
+	copy(out.LogsBloom[:32], bloom[:])
+	copy(out.LogsBloom[len(out.LogsBloom)-32:], bloom[:])
 	for i := 0; i < ntx; i++ {
 		tx := make([]byte, 9)
 		tx[0] = 0x02
@@ -215,7 +225,7 @@ func (p *Payload) wds() common.Withdrawals {
 func (p *Payload) ToBellatrix() bellatrix.ExecutionPayload {
 	return bellatrix.ExecutionPayload{
 		ParentHash: p.ParentHash, FeeRecipient: p.FeeRecipient, StateRoot: p.StateRoot, ReceiptsRoot: p.ReceiptsRoot,
-		PrevRandao: p.PrevRandao, BlockNumber: view.Uint64View(p.BlockNumber), GasLimit: view.Uint64View(p.GasLimit),
+		LogsBloom: p.LogsBloom, PrevRandao: p.PrevRandao, BlockNumber: view.Uint64View(p.BlockNumber), GasLimit: view.Uint64View(p.GasLimit),
 		GasUsed: view.Uint64View(p.GasUsed), Timestamp: p.Timestamp, ExtraData: append(common.ExtraData(nil), p.ExtraData...),
 		BaseFeePerGas: u256(p.BaseFeePerGas), BlockHash: p.BlockHash, Transactions: p.txs(),
 	}
@@ -225,7 +235,7 @@ func (p *Payload) ToBellatrix() bellatrix.ExecutionPayload {
 func (p *Payload) ToCapella() capella.ExecutionPayload {
 	return capella.ExecutionPayload{
 		ParentHash: p.ParentHash, FeeRecipient: p.FeeRecipient, StateRoot: p.StateRoot, ReceiptsRoot: p.ReceiptsRoot,
-		PrevRandao: p.PrevRandao, BlockNumber: view.Uint64View(p.BlockNumber), GasLimit: view.Uint64View(p.GasLimit),
+		LogsBloom: p.LogsBloom, PrevRandao: p.PrevRandao, BlockNumber: view.Uint64View(p.BlockNumber), GasLimit: view.Uint64View(p.GasLimit),
 		GasUsed: view.Uint64View(p.GasUsed), Timestamp: p.Timestamp, ExtraData: append(common.ExtraData(nil), p.ExtraData...),
 		BaseFeePerGas: u256(p.BaseFeePerGas), BlockHash: p.BlockHash, Transactions: p.txs(), Withdrawals: p.wds(),
 	}
@@ -235,7 +245,7 @@ func (p *Payload) ToCapella() capella.ExecutionPayload {
 func (p *Payload) ToDeneb() deneb.ExecutionPayload {
 	return deneb.ExecutionPayload{
 		ParentHash: p.ParentHash, FeeRecipient: p.FeeRecipient, StateRoot: p.StateRoot, ReceiptsRoot: p.ReceiptsRoot,
-		PrevRandao: p.PrevRandao, BlockNumber: view.Uint64View(p.BlockNumber), GasLimit: view.Uint64View(p.GasLimit),
+		LogsBloom: p.LogsBloom, PrevRandao: p.PrevRandao, BlockNumber: view.Uint64View(p.BlockNumber), GasLimit: view.Uint64View(p.GasLimit),
 		GasUsed: view.Uint64View(p.GasUsed), Timestamp: p.Timestamp, ExtraData: append(common.ExtraData(nil), p.ExtraData...),
 		BaseFeePerGas: u256(p.BaseFeePerGas), BlockHash: p.BlockHash, Transactions: p.txs(), Withdrawals: p.wds(),
 		BlobGasUsed: view.Uint64View(p.BlobGasUsed), ExcessBlobGas: view.Uint64View(p.ExcessBlobGas),
@@ -256,19 +266,19 @@ func PayloadOf(body common.SpecObj) *Payload {
 	case *bellatrix.BeaconBlockBody:
 		e := &b.ExecutionPayload
 		return &Payload{ParentHash: e.ParentHash, FeeRecipient: e.FeeRecipient, StateRoot: e.StateRoot, ReceiptsRoot: e.ReceiptsRoot,
-			PrevRandao: e.PrevRandao, BlockNumber: uint64(e.BlockNumber), GasLimit: uint64(e.GasLimit), GasUsed: uint64(e.GasUsed),
+			LogsBloom: e.LogsBloom, PrevRandao: e.PrevRandao, BlockNumber: uint64(e.BlockNumber), GasLimit: uint64(e.GasLimit), GasUsed: uint64(e.GasUsed),
 			Timestamp: e.Timestamp, ExtraData: append([]byte(nil), e.ExtraData...), BaseFeePerGas: big(e.BaseFeePerGas), BlockHash: e.BlockHash,
 			Transactions: conv(e.Transactions)}
 	case *capella.BeaconBlockBody:
 		e := &b.ExecutionPayload
 		return &Payload{ParentHash: e.ParentHash, FeeRecipient: e.FeeRecipient, StateRoot: e.StateRoot, ReceiptsRoot: e.ReceiptsRoot,
-			PrevRandao: e.PrevRandao, BlockNumber: uint64(e.BlockNumber), GasLimit: uint64(e.GasLimit), GasUsed: uint64(e.GasUsed),
+			LogsBloom: e.LogsBloom, PrevRandao: e.PrevRandao, BlockNumber: uint64(e.BlockNumber), GasLimit: uint64(e.GasLimit), GasUsed: uint64(e.GasUsed),
 			Timestamp: e.Timestamp, ExtraData: append([]byte(nil), e.ExtraData...), BaseFeePerGas: big(e.BaseFeePerGas), BlockHash: e.BlockHash,
 			Transactions: conv(e.Transactions), Withdrawals: append([]common.Withdrawal(nil), e.Withdrawals...)}
 	case *deneb.BeaconBlockBody:
 		e := &b.ExecutionPayload
 		return &Payload{ParentHash: e.ParentHash, FeeRecipient: e.FeeRecipient, StateRoot: e.StateRoot, ReceiptsRoot: e.ReceiptsRoot,
-			PrevRandao: e.PrevRandao, BlockNumber: uint64(e.BlockNumber), GasLimit: uint64(e.GasLimit), GasUsed: uint64(e.GasUsed),
+			LogsBloom: e.LogsBloom, PrevRandao: e.PrevRandao, BlockNumber: uint64(e.BlockNumber), GasLimit: uint64(e.GasLimit), GasUsed: uint64(e.GasUsed),
 			Timestamp: e.Timestamp, ExtraData: append([]byte(nil), e.ExtraData...), BaseFeePerGas: big(e.BaseFeePerGas), BlockHash: e.BlockHash,
 			Transactions: conv(e.Transactions), Withdrawals: append([]common.Withdrawal(nil), e.Withdrawals...),
 			BlobGasUsed: uint64(e.BlobGasUsed), ExcessBlobGas: uint64(e.ExcessBlobGas)}
